@@ -828,6 +828,9 @@ def run(ctx):
             res.sample({'fn': case['fn'], 'via': case['via'],
                         'call': case.get('formula') or [arg_wire(a, 'direct') for a in case['args']],
                         'real': real, 'spec': spec})
+    # report the smallest failing inputs first (the exhaustive small rectangles are among the cases,
+    # so the first replay is a minimal one)
+    res.violations.sort(key=lambda v: len(json.dumps(v['input'], default=str)))
     if not res.samples and cases:
         c = cases[0]
         res.sample({'fn': c['fn'], 'via': c['via'], 'args': c['args']})
